@@ -1477,15 +1477,17 @@ class BinaryOperator(SymbolicExpression, ABC):
                 if cache is not None:
                     cache.clear()
 
-    def yield_final_output_from_cache(self, variables_sources, cache: Optional[IndexedCache] = None) \
-            -> Iterable[Dict[int, HashedValue]]:
+    def yield_final_output_from_cache(self, variables_sources, cache: Optional[IndexedCache] = None,
+                                      yield_when_false: Optional[bool] = None) -> Iterable[Dict[int, HashedValue]]:
         cache = self._cache_ if cache is None else cache
+        # (the flag of the call when it is given: the node's flag can change while this generator is suspended)
+        yield_when_false = self._yield_when_false_ if yield_when_false is None else yield_when_false
         entered = False
         for output, is_false in self._most_general_outputs_(cache.retrieve(variables_sources), cache.keys):
             entered = True
             self._is_false_ = is_false
             cache_match_count.values[self._node_.name] += 1
-            if is_false and (not self._yield_when_false_ or self._is_duplicate_output_(output)):
+            if is_false and (not yield_when_false or self._is_duplicate_output_(output)):
                 # (the cache may hold false outputs of an evaluation that asked for them, this one may not)
                 continue
             yield output
@@ -1778,18 +1780,20 @@ class Comparator(BinaryOperator):
          only two values, the left and right symbolic values.
         """
         sources = sources or {}
-        self._yield_when_false_ = yield_when_false
 
         if self._id_ in sources:
             # evaluated already under this binding (one condition object used in several places of a condition): it is
-            # what it was there, true or false.
-            self._is_false_ = not sources[self._id_].value
-            if not self._is_false_ or yield_when_false:
+            # what it was there, true or false. (The evaluation that bound it may be suspended right now: its flags are
+            # left alone unless a row is handed out.)
+            is_false = not sources[self._id_].value
+            if not is_false or yield_when_false:
+                self._is_false_ = is_false
                 yield sources
             return
+        self._yield_when_false_ = yield_when_false
 
         if self._cache_covers_(sources):
-            yield from self.yield_final_output_from_cache(sources)
+            yield from self.yield_final_output_from_cache(sources, yield_when_false=yield_when_false)
             return
 
         first_operand, second_operand = self.get_first_second_operands(sources)
@@ -1869,6 +1873,29 @@ class LogicalOperator(BinaryOperator, ABC):
         """
         return True
 
+    def _evaluate__(self, sources: Optional[Dict[int, HashedValue]] = None,
+                    yield_when_false: bool = False) -> Iterable[Dict[int, HashedValue]]:
+        sources = sources or {}
+        if self._id_ in sources:
+            # evaluated already under this binding (one condition object used in several places of a condition): it is
+            # what it was there, true or false. (The evaluation that bound it may be suspended right now: nothing of
+            # this node is touched.)
+            is_false = not sources[self._id_].value
+            if not is_false or yield_when_false:
+                self._is_false_ = is_false
+                yield sources
+            return
+        for output in self._evaluate_operands_(sources, yield_when_false=yield_when_false):
+            yield {**output, self._id_: HashedValue(not self._is_false_)}
+
+    def _evaluate_operands_(self, sources: Dict[int, HashedValue],
+                            yield_when_false: bool = False) -> Iterable[Dict[int, HashedValue]]:
+        """
+        Evaluate the operands under the given bindings and yield the bindings under which this operation is true (and,
+        when asked for, those under which it is false).
+        """
+        raise NotImplementedError
+
     @property
     def _plot_color_(self) -> ColorLegend:
         return ColorLegend("LogicalOperator", '#2ca02c')
@@ -1889,7 +1916,7 @@ class AND(LogicalOperator):
             when_true = None
         return super()._required_variables_from_child_(child, when_true)
 
-    def _evaluate__(self, sources: Optional[Dict[int, HashedValue]] = None, yield_when_false: bool = False) -> Iterable[Dict[int, HashedValue]]:
+    def _evaluate_operands_(self, sources: Optional[Dict[int, HashedValue]] = None, yield_when_false: bool = False) -> Iterable[Dict[int, HashedValue]]:
         # init an empty source if none is provided
         sources = sources or {}
         self._yield_when_false_ = yield_when_false
@@ -1975,7 +2002,7 @@ class Union(OR):
     left_evaluated: bool = field(default=False, init=False)
     right_evaluated: bool = field(default=False, init=False)
 
-    def _evaluate__(self, sources: Optional[Dict[int, HashedValue]] = None, yield_when_false: bool = False) -> Iterable[Dict[int, HashedValue]]:
+    def _evaluate_operands_(self, sources: Optional[Dict[int, HashedValue]] = None, yield_when_false: bool = False) -> Iterable[Dict[int, HashedValue]]:
         # init an empty source if none is provided
         sources = sources or {}
         self._yield_when_false_ = yield_when_false
@@ -2033,7 +2060,7 @@ class ElseIf(OR):
     A symbolic single choice operation that can be used to choose between multiple symbolic expressions.
     """
 
-    def _evaluate__(self, sources: Optional[Dict[int, HashedValue]] = None, yield_when_false: bool = False) -> Iterable[Dict[int, HashedValue]]:
+    def _evaluate_operands_(self, sources: Optional[Dict[int, HashedValue]] = None, yield_when_false: bool = False) -> Iterable[Dict[int, HashedValue]]:
         """
         Constrain the symbolic expression based on the indices of the operands.
         This method overrides the base class method to handle ElseIf logic.
